@@ -579,11 +579,11 @@ func execC18(t *testing.T, cc any, o *Outcome) {
 		pb, _ := runProcess(dir, tpl, c, c.SeamB, "pb")
 		o.Probe("cross-process")
 		if d := diffResults(a1, pa, true); d != "" {
-			o.Fail("nondeterministic:new-process:"+tpl.name, "a new process gives another result than the same command in-process under the same seams\n%s\nseams: %s\n%s", ctx, seamText(c.SeamA), d)
+			o.Fail("nondeterministic:across-processes:"+tpl.name, "a new process gives another result than the same command in-process under the same seams\n%s\nseams: %s\n%s", ctx, seamText(c.SeamA), d)
 			return
 		}
 		if d := diffResults(pa, pb, true); d != "" {
-			o.Fail("nondeterministic:processes:"+tpl.name, "two processes under different seams differ\n%s\nseam A: %s\nseam B: %s\n%s", ctx, seamText(c.SeamA), seamText(c.SeamB), d)
+			o.Fail("nondeterministic:across-processes:"+tpl.name, "two processes under different seams differ\n%s\nseam A: %s\nseam B: %s\n%s", ctx, seamText(c.SeamA), seamText(c.SeamB), d)
 		}
 	}
 }
